@@ -36,6 +36,7 @@ class Limit:
         upper: bool,
         resource: Optional["Resource"] = None,
         slot_duration: int = 3600,
+        open_ended: bool = False,
     ) -> None:
         """
         Create a new Limit.
@@ -49,6 +50,9 @@ class Limit:
             upper: True for upper limit, False for lower limit
             resource: Optional resource this limit applies to
             slot_duration: Duration of each scheduling slot in seconds (default 1 hour)
+            open_ended: True if the interval is the project's default interval. The scheduler may
+                        extend the project end after the limit was created; such a limit keeps
+                        counting in the periods beyond interval_end instead of ending there.
         """
         self.name = name
         self.interval_start = interval_start
@@ -58,6 +62,7 @@ class Limit:
         self.upper = upper
         self.resource = resource
         self.slot_duration = slot_duration
+        self.open_ended = open_ended
 
         self._dirty = True
         self._scoreboard: list[int] = []
@@ -74,6 +79,7 @@ class Limit:
             self.upper,
             self.resource,
             self.slot_duration,
+            self.open_ended,
         )
 
     def reset(self, index: Optional[int] = None) -> None:
@@ -164,6 +170,9 @@ class Limit:
             return
 
         sb_idx = self._idx_to_sb_idx(index)
+        if self.open_ended and sb_idx >= len(self._scoreboard):
+            # Period beyond the end known when the limit was created: grow the counters
+            self._scoreboard.extend([0] * (sb_idx + 1 - len(self._scoreboard)))
         if 0 <= sb_idx < len(self._scoreboard):
             self._dirty = True
             self._scoreboard[sb_idx] += 1
@@ -218,10 +227,14 @@ class Limit:
             return True
         else:
             sb_idx = self._idx_to_sb_idx(index)
-            if sb_idx < 0 or sb_idx >= len(self._scoreboard):
+            if sb_idx < 0:
                 return True  # Outside interval, OK
-
-            count = self._scoreboard[sb_idx]
+            if sb_idx >= len(self._scoreboard):
+                if not self.open_ended:
+                    return True  # Outside interval, OK
+                count = 0  # Nothing booked yet in a period beyond the original end
+            else:
+                count = self._scoreboard[sb_idx]
             if self.upper:
                 return count < self.value
             else:
@@ -334,7 +347,17 @@ class Limits:
 
         # Add new limit (using value_in_slots which is calculated from hours)
         self._limits.append(
-            Limit(name, interval_start, interval_end, period, value_in_slots, upper, resource, slot_duration)
+            Limit(
+                name,
+                interval_start,
+                interval_end,
+                period,
+                value_in_slots,
+                upper,
+                resource,
+                slot_duration,
+                open_ended=interval is None,
+            )
         )
 
     def inc(self, index: int, resource: Optional["Resource"] = None) -> None:
